@@ -103,7 +103,21 @@ func (h *hist) listStep() {
 	if len(quiet) > 0 && h.r.IntN(5) != 0 {
 		p := quiet[h.r.IntN(len(quiet))]
 		neg := ref.Clo([]string{"x"}, ref.Un("-", ref.Id("x")))
-		switch h.r.IntN(8) {
+		switch h.r.IntN(11) {
+		case 8, 9:
+			// partial consumption of the unevaluated list: it must deliver all of its items to the next reader
+			k := int64(h.r.IntN(4))
+			part := []*ref.Node{
+				ref.Try(ref.Method(h0, "first"), ref.Int(-1)),
+				ref.Method(ref.Method(h0, "top", ref.Int(k)), "size"),
+				ref.Method(h0, "present", ref.Clo([]string{"x"}, ref.Bin("=", ref.Id("x"), ref.Id("x")))),
+				ref.Method(h0, "indexWhere", ref.Clo([]string{"x"}, ref.Bool(true))),
+				ref.Try(ref.Method(ref.Method(h0, "skip", ref.Int(k)), "first"), ref.Int(-1)),
+				ref.Try(ref.Bin("~", ref.Try(ref.Method(h0, "first"), ref.Int(-1)), h0), ref.Bool(false)),
+			}
+			h.derive("partial-unevaluated", ref.ListN(part[h.r.IntN(len(part))], part[h.r.IntN(len(part))]), p)
+		case 10:
+			h.derive("combineN-unevaluated", ref.Method(h0, "combineN", ref.Int(int64(1+h.r.IntN(3))), ref.Clo([]string{"w"}, ref.Id("w"))), p)
 		case 0:
 			h.derive("set-unevaluated", ref.Method(h0, "set", ref.Int(int64(h.r.IntN(3))), ref.Int(int64(100+h.r.IntN(900)))), p)
 		case 1:
@@ -130,7 +144,12 @@ func (h *hist) listStep() {
 		p = ls[len(ls)-1-h.r.IntN(min(len(ls), 3))]
 	}
 	item := ref.Int(int64(100 + h.r.IntN(900)))
-	switch h.r.IntN(16) {
+	switch h.r.IntN(18) {
+	case 16:
+		// windows that are kept: each must stay what it was when the source is read on
+		h.hush(h.derive("combineN", ref.Method(h0, "combineN", ref.Int(int64(1+h.r.IntN(3))), ref.Clo([]string{"w"}, ref.Id("w"))), p))
+	case 17:
+		h.hush(h.derive("combine3-windows", ref.Method(h0, "combine3", ref.Clo([]string{"u", "v", "w"}, ref.ListN(ref.Id("u"), ref.Id("v"), ref.Id("w")))), p))
 	case 0, 1, 2, 3, 4:
 		h.derive("append", ref.Method(h0, "append", item), p)
 	case 5:
